@@ -18,7 +18,7 @@ RULE = ('rows of length 1..6 over {space, a, é, 日, -} enumerated exhaustively
         'distinct input containing a multi-byte or double-width label next to a blank or a drawing character')
 ASSUMPTIONS = ['width-1 and width-2 characters only (python unicodedata east_asian_width W/F = 2 columns, as unicode-width)',
                'characters with a drawing meaning (keys of the ascii/unicode property tables of the tree) may or may not be text']
-FLOORS = {'quick': {'distinct_nontrivial': 3000}, 'thorough': {'distinct_nontrivial': 60000}}
+FLOORS = {'quick': {'distinct_nontrivial': 3000, 'shape_label_documents': 500}, 'thorough': {'distinct_nontrivial': 60000, 'shape_label_documents': 5000}}
 LAB = "abzé日ЖkñД字"
 DRAW = "-|+/.'"
 
@@ -82,6 +82,46 @@ def run_shard(ctx, shard):
         ctx.sample({'rows': [alpha[:n], shard['seconds'][-1]]})
         return
     rng = rng_for(ctx.seed, ID, shard['name'])
+    if shard['kind'] == 'shapes':
+        # labels touching / inside shapes that touch each other (no blank column or row between them): the
+        # shape recognisers peel characters off a span in several rounds, the labels must survive every round
+        circles = ctx.extra['circles']
+        for i in range(shard['n']):
+            c = list(rng.choice([a for a in circles if 3 <= len(a) <= 9]))
+            h = len(c)
+            cw_ = max(len(r) for r in c)
+            c = [r.ljust(cw_) for r in c]
+            lab = rng.choice(['ab', 'k9', 'qz', 'a', 'hi', 'zb7'])
+            mid = h // 2
+            mode = rng.randrange(5)
+            if mode == 0:      # box | circle label
+                b = gen.box(rng.randint(1, 4), h - 2)
+                rows = [x + y for x, y in zip(b, c)]
+                rows[mid] = rows[mid].rstrip() + lab
+            elif mode == 1:    # box | circle with the label inside the circle
+                b = gen.box(rng.randint(1, 4), h - 2)
+                inner = c[mid]
+                lead = len(inner) - len(inner.lstrip())
+                if len(inner.strip()) - 2 >= len(lab) + 2 and inner.strip()[1:-1].strip() == '':
+                    inner = inner[:lead + 2] + lab + inner[lead + 2 + len(lab):]
+                rows = [x + y for x, y in zip(b, c[:mid] + [inner] + c[mid + 1:])]
+            elif mode == 2:    # two circles stacked, label next to the lower one
+                rows = c + c
+                rows[h + mid] = rows[h + mid].rstrip() + lab
+            elif mode == 3:    # circle | box with a label in the box, label after the box
+                w = rng.randint(3, 6)
+                b = gen.box(w, h - 2, inner={max(0, mid - 1): ' ' + lab[:w - 1]} if h > 2 else None)
+                rows = [x + y for x, y in zip(c, b)]
+                rows[0] = rows[0] + lab
+            else:              # label directly above / below a box and a circle side by side
+                b = gen.box(rng.randint(1, 4), h - 2)
+                rows = [lab + ' ' + lab] + [x + y for x, y in zip(b, c)] + [' ' + lab]
+            rows = [r.rstrip() for r in rows]
+            ctx.run_case({'rows': rows})
+            ctx.tag('shape_label_documents')
+            if i == 0:
+                ctx.sample({'rows': rows})
+        return
     for i in range(shard['n']):
         w = rng.randint(1, 12)
         h = rng.randint(1, 5)
@@ -96,7 +136,7 @@ def execute(run):
     binary = build_driver()
     info = driver_info(binary)
     drawing = set(info['ascii']) | set(info['unicode_properties']) | set(info['unicode_fragments'])
-    extra = {'drawing': drawing}
+    extra = {'drawing': drawing, 'circles': info['circles']}
     shards = []
     maxlen = 6 if run.tier == 'quick' else 7
     for n in range(1, maxlen + 1):
@@ -105,6 +145,7 @@ def execute(run):
             shards.append({'kind': 'exh', 'name': 'exh-%d-%s' % (n, pre), 'len': n, 'prefix': pre, 'seconds': ['', 'x' * 8, '-' * 3]})
     k, n = (16, 1500) if run.tier == 'quick' else (32, 15000)
     shards += [{'kind': 'rand', 'name': 'rand-%d' % i, 'n': n} for i in range(k)]
+    shards += [{'kind': 'shapes', 'name': 'shapes-%d' % i, 'n': n // 3} for i in range(4)]
     shards.sort(key=lambda s: -s.get('len', 0))
     run.extra_cov['exhaustive_scopes'] = ['all rows of length 1..%d over {space,a,é,日,-}, alone, above xxxxxxxx and above ---' % maxlen]
     run.run_shards(binary, shards, extra=extra)
